@@ -241,10 +241,13 @@ func saveSharedCache() (string, error) {
 	}
 
 	data, err := sharedCache.MarshalMsg(nil)
-	if err != nil {
-		return "", err
+	if err == nil {
+		err = writeFileExclusive(filepath.Join(dir, sharedCacheFilename), data)
 	}
-	if err := writeFileExclusive(filepath.Join(dir, sharedCacheFilename), data); err != nil {
+	if err != nil {
+		// The caller only learns about the directory on success,
+		// so it cannot clean it up for us.
+		os.RemoveAll(dir)
 		return "", err
 	}
 	return dir, nil
